@@ -129,6 +129,13 @@ func (s *vFlatSys) Apply(op vOp, hist []vOp, check bool) {
 }
 
 func (s *vFlatSys) observe(hist []vOp) {
+	canonBefore := vCanonVec(s.idx)
+	defer func() {
+		s.c.Evaluations++
+		if after := vCanonVec(s.idx); after != canonBefore {
+			s.c.Violation("search-modified-index", "", s.cfg, vHistStrings(hist), fmt.Sprintf("index state before the queries [%s] after [%s]", canonBefore, after))
+		}
+	}()
 	stateKey := ""
 	for qi, q := range s.qs {
 		s.c.Evaluations++
